@@ -126,7 +126,12 @@ def match_known(finding, known, prop):
             continue
         if m.get("harness_prefix") and not str(finding.get("harness", "")).startswith(m["harness_prefix"]):
             continue
-        if not _cond_ok(m.get("cond"), finding.get("shape") or {}):
+        env_ = dict(finding.get("shape") or {})
+        env_.update((finding.get("witness") or {}).get("args") or {})
+        if m.get("cond") and (finding.get("witness") or {}).get("driver", "").startswith("py:") and \
+                (finding.get("witness") or {}).get("args") is None:
+            continue
+        if not _cond_ok(m.get("cond"), env_):
             continue
         return k
     return None
